@@ -20,6 +20,7 @@ import numpy as np
 
 from mc import families as F
 from mc import gf2
+from mc import session
 
 PROPERTY = 'C02'
 LEVEL = 'exploration'
@@ -56,6 +57,7 @@ def cases(tier, seed):
     b = BOUNDS[tier]
     out = [dict(c, part='A1') for c in F.configs(b['max_n'], F.CLASSES_2D, l_max=b['l_max_2d'], used=True)]
     out += [dict(c, part='A1') for c in F.configs(b['max_n'], F.CLASSES_3D, l_max=b['l_max_3d'], used=True)]
+    out += [{'part': 'session', 'cfgs': seq} for seq in session.interleave_by_size(out)]
     for sh in range(b['user_shapes']):
         out.append({'part': 'A2', 'n': 1, 'shape': sh, 'first': None})
         out.append({'part': 'A2', 'n': 2, 'shape': sh, 'first': None})
@@ -447,6 +449,8 @@ def eval_seeds(case):
 
 
 def eval_case(case):
+    if case['part'] == 'session':
+        return session.run(case['cfgs'], eval_library, F.cfg_label)
     if case['part'] == 'A1':
         return eval_library(case)
     if case['part'] == 'A2':
